@@ -16,13 +16,15 @@ The injected stage is `mapPartitionsWithIndex(faulty)`; `faulty` keeps the attem
 (attempt number, outcome of every nested operation, elements pulled from upstream, how the attempt
 ended).  The implementation result is, per job, (result, logs): result = (0, value) or
 (1, exception_class, exception_args); logs = one list of attempt records per partition."""
-import functools
+import glob
 import itertools
+import json
+import os
 import threading
 from concurrent.futures import ThreadPoolExecutor
 
 import pysparkling
-from common.coqlit import Err
+from common.coqlit import Err, uncanon
 from pysparkling.exceptions import ContextIsLockedException
 
 ID = 'C04'
@@ -32,13 +34,16 @@ RULE = ('cases (max_retries, executor, job sequence on one context); every job h
         'a fault plan (exception class and position before/mid/after for every failing attempt, 0..max_retries+1 of them) '
         'and nested operations (create a dataset / run an action from inside the task, caught or propagating); '
         'exhaustive over the number of failing attempts per partition for <=3 partitions and max_retries 1..4 on all '
-        'three executors, each followed by a fresh job; plus random job sequences; 9 actions, lazy and eager task '
-        'functions; non-trivial = some attempt fails or some nested operation is attempted; distinct by canonical JSON')
+        'three executors, each followed by a fresh job; lazy actions take(n)/first/isEmpty; random job sequences of 1-3 '
+        'jobs (max_retries 1..6); 9 whole-partition actions, generator and eager task functions; non-trivial = some attempt fails or some nested operation is attempted; distinct by canonical JSON')
 ASSUMPTIONS = [
-    'max_retries in 1..4, catch_exceptions=False, retry_wait=0 (outside that range _run_task recurses without bound)',
-    'actions that evaluate whole partitions: collect count sum reduce fold aggregate foreach foreachPartition '
-    '(take/first/isEmpty/toLocalIterator are lazy and excluded by the property)',
-    'pooled executor = concurrent.futures.ThreadPoolExecutor (shared memory); process pools are not exercised here',
+    'max_retries >= 1 (generated: 1..6), catch_exceptions=False, retry_wait=0 (with max_retries <= 0 or catch_exceptions=True _run_task recurses without bound on a permanent failure)',
+    'actions that evaluate whole partitions: collect count sum reduce fold aggregate foreach foreachPartition; the lazy '
+    'take/first/isEmpty are modelled separately (no retry for a generator task function); toLocalIterator is not covered',
+    'pooled executor in the model correspondence = concurrent.futures.ThreadPoolExecutor; worker processes '
+    '(multiprocessing.Pool + cloudpickle) are exercised by the oracle only (extra_checks), with at most one exhausting '
+    'partition per job and no reduce over an empty partition (RDD.reduce fails there without any fault: its sentinel '
+    'does not survive pickling -- a backend defect, not a retry defect)',
     'on the thread pool, nested operations are only generated in partitions up to the first exhausted one: tasks of '
     'later partitions may still be running after the failed job has released its lock (executor race, not modelled)',
     'free-running thread pool: attempt logs of partitions after the first exhausted one are only checked to be '
@@ -176,7 +181,7 @@ def run_job(sc, maxr, mode, jidx, job):
                         raise
         finally:
             if barrier is not None and a == 1:
-                barrier.wait(timeout=30)
+                barrier.wait(timeout=600)
         it = iter(it)
         f = plan[a - 1] if a - 1 < len(plan) else None
         if f is None:
@@ -410,9 +415,18 @@ def random_job(rng, maxr, mode, nest_p=0.25):
     return fix_job(rng, maxr, mode, job)
 
 
+def corpus():
+    d = os.path.join(os.environ.get('VERIF_ROOT', '/verif'), 'corpus', ID)
+    out = []
+    for path in sorted(glob.glob(os.path.join(d, '*.json'))):
+        with open(path) as f:
+            out.append(uncanon(json.load(f)['case']))
+    return out
+
+
 def generate(rng, tier):
     quick = tier == 'quick'
-    cases = []
+    cases = corpus()
     # 1. exhaustive over the number of failing attempts per partition, every executor, followed by a fresh job
     for maxr in (1, 2, 3, 4):
         for n in (1, 2, 3):
@@ -462,8 +476,8 @@ def generate(rng, tier):
                         parts.append((gen_data(rng), plan, nest))
                     cases.append((maxr, mode, [(action, style, rng.randrange(4), rng.randrange(4), parts), simple_job(rng)]))
     # 6. random job sequences
-    for _ in range(500 if quick else 6000):
-        maxr = rng.randint(1, 4)
+    for _ in range(800 if quick else 15000):
+        maxr = rng.choice([1, 2, 3, 4, 1, 2, 3, 4, 1, 2, 3, 4, 5, 6])
         mode = rng.choice([0, 0, 1, 2])
         jobs = [random_job(rng, maxr, mode) for _ in range(rng.choice([1, 2, 2, 3]))]
         if rng.random() < 0.2:
@@ -473,7 +487,159 @@ def generate(rng, tier):
     return cases
 
 
+# ------------------------------------------------------------------ process pool (oracle only)
+
+PROC_STATS = {'process_pool_cases': 0, 'process_pool_failing_jobs': 0, 'process_pool_nested': 0}
+
+
+def run_job_procs(sc, workdir, tag, jidx, job):
+    """Like run_job, for a pool of worker PROCESSES: the task function (a closure holding the context, pickled
+    with cloudpickle while the job lock is held) keeps its attempt log in one file per partition."""
+    action, style, pre, post, parts = job
+    holder = {}
+
+    def path(idx):
+        return os.path.join(workdir, f'proc_{tag}_{jidx}_{idx}.log')
+
+    def body(idx, it):
+        _data, plan, nest = parts[idx]
+        try:
+            with open(path(idx)) as f:
+                a = len(f.readlines()) + 1
+        except FileNotFoundError:
+            a = 1
+        rec = [a, [], [], None]
+
+        def done():
+            with open(path(idx), 'a') as f:
+                f.write(json.dumps(rec) + '\n')
+        for nkind, caught in nest:
+            try:
+                if nkind == 0:
+                    sc.parallelize([7, 8, 9], 2)
+                else:
+                    holder['other'].count()
+                rec[1].append(1)
+            except ContextIsLockedException:
+                rec[1].append(0)
+                if not caught:
+                    rec[3] = LOCKED
+                    done()
+                    raise
+        it = iter(it)
+        f = plan[a - 1] if a - 1 < len(plan) else None
+        if f is None:
+            for x in it:
+                rec[2].append(x)
+                yield x
+            rec[3] = -1
+            done()
+            return
+        exc, pos = f
+        size = len(parts[idx][0])
+        k = 0 if pos == 0 else size // 2 if pos == 1 else size
+        for _ in range(k):
+            x = next(it)
+            rec[2].append(x)
+            yield x
+        rec[3] = exc
+        done()
+        raise EXC[exc](jidx, idx, a)
+
+    def eager(idx, it):
+        return list(body(idx, it))
+
+    try:
+        holder['other'] = sc._parallelize_partitions([[1, 2], [3]])  # pylint: disable=protected-access
+        rdd = sc._parallelize_partitions([list(p[0]) for p in parts])  # pylint: disable=protected-access
+        if pre:
+            rdd = rdd.map(FUNCS[pre])
+        rdd = rdd.mapPartitionsWithIndex(eager if style else body)
+        if post:
+            rdd = rdd.map(FUNCS[post])
+        res = (0, do_action(action, rdd))
+    except Exception as e:  # pylint: disable=broad-except
+        args = e.args if all(isinstance(x, int) for x in e.args) else (repr(e.args),)
+        res = (1, exc_code(e), tuple(args))
+    logs = []
+    for idx in range(len(parts)):
+        try:
+            with open(path(idx)) as f:
+                logs.append([tuple(json.loads(line)) for line in f])
+        except FileNotFoundError:
+            logs.append([])
+    return res, logs
+
+
+def extra_checks(rng, tier, workdir):
+    """Worker processes (multiprocessing.Pool + cloudpickle): the same statement, judged by the oracle only.
+    At most one partition per job exhausts (with several, Pool.map reports whichever fails first in time)."""
+    import multiprocessing
+    import pickle
+
+    import cloudpickle
+    n = 150 if tier == 'quick' else 1500
+    mp = multiprocessing.get_context('fork')
+    with mp.Pool(3) as pool:
+        for k in range(n):
+            maxr = rng.randint(1, 3)
+            jobs = []
+            for _ in range(2):
+                job = random_job(rng, maxr, 0, nest_p=0.3)
+                action, style, pre, post, parts = job
+                seen = False
+                fixed = []
+                for data, plan, nest in parts:
+                    if action in NEEDS_DATA and not data:
+                        # RDD.reduce on worker processes fails on an empty partition even without any fault (its
+                        # `_empty` sentinel is compared by identity and does not survive pickling) -- not C04's subject
+                        data = gen_data(rng, 2)
+                    if n_failing(maxr, (data, plan, nest)) >= maxr:
+                        if seen:
+                            plan, nest = [], [x for x in nest if x[1]]
+                        seen = True
+                    fixed.append((data, plan, nest))
+                jobs.append((action, style, pre, post, fixed))
+            jobs.append(simple_job(rng))
+            case = (maxr, 1, jobs)
+            sc = pysparkling.Context(pool=pool, serializer=cloudpickle.dumps, deserializer=pickle.loads, max_retries=maxr)
+            result = [run_job_procs(sc, workdir, k, jidx, job) for jidx, job in enumerate(jobs)]
+            PROC_STATS['process_pool_cases'] += 1
+            PROC_STATS['process_pool_failing_jobs'] += sum(1 for r, _l in result if r[0] == 1)
+            PROC_STATS['process_pool_nested'] += sum(1 for j in jobs for p in j[4] if p[2])
+            o = oracle(case, result)
+            if o is not None:
+                yield ('process-pool:' + o[0], o[1], repr(result)[:600], case)
+
+
+def extra_evidence():
+    return dict(PROC_STATS)
+
+
+def valid(case):
+    """The generator restrictions (ASSUMPTIONS) -- shrinking must not leave them."""
+    maxr, mode, jobs = case
+    if not (1 <= maxr and mode in (0, 1, 2) and jobs):
+        return False
+    for action, _style, _pre, _post, parts in jobs:
+        if not parts:
+            return False
+        if action in NEEDS_DATA and not any(p[0] for p in parts):
+            return False
+        if mode and action not in LAZY:
+            fe = first_exhausted(maxr, parts)
+            if fe is not None and any(p[2] for p in parts[fe + 1:]):
+                return False
+    return True
+
+
 def shrink_candidates(case):
+    for c in _shrink_candidates(case):
+        if valid(c):
+            yield c
+
+
+def _shrink_candidates(case):
     maxr, mode, jobs = case
     if len(jobs) > 1:
         for i in range(len(jobs)):
